@@ -1587,6 +1587,8 @@ class C18(Check):
                         bad.append("matrix accessor")
                     if [int(x) for x in o["dpos"]] != [a * R + i for i in range(R) for a in range(T)]:
                         bad.append("diagonal-tensor accessor (C=1)")
+                    if o.get("copies") != ["1"]:
+                        bad.append("a copy (constructed, assigned into another shape, moved) of a tensor / matrix / diagonal / symmetric tensor differs from the original")
                     if [int(x) for x in o.get("pos2", [])] != [j * R + i for i in range(R) for j in range(Cc)]:
                         bad.append("two-index form t(i,j) of a tensor is not element (i,j) of layer 0 (const and non-const accessor)")
                     if [int(x) for x in o.get("tpos2", [])] != [i * R + j for i in range(Cc) for j in range(R)]:
